@@ -12,6 +12,7 @@ import Mathlib.LinearAlgebra.Matrix.SchurComplement
 import Mathlib.Analysis.SpecialFunctions.Trigonometric.Basic
 import Mathlib.Tactic.FieldSimp
 import Mathlib.Tactic.Linarith
+import Mathlib.Tactic.FinCases
 
 namespace GT.Cox
 
@@ -263,5 +264,196 @@ theorem cheb_period (m : ℕ) (hm : 3 ≤ m) :
       Real.cos_lt_cos_of_nonneg_of_le_pi (le_refl 0) hlt.le hpos
     rw [Real.cos_zero] at this
     intro h; linarith
+
+section triangle
+variable {R : Type*} [CommRing R] {n : ℕ}
+
+theorem B_mulVec_vertex (B : Matrix (Fin n) (Fin n) R) (k : Fin n) :
+    B *ᵥ vertex B k = B.det • Pi.single k 1 := by
+  funext a
+  have := congrFun (congrFun (Matrix.mul_adjugate B) a) k
+  simp only [Matrix.mul_apply, Matrix.smul_apply, Matrix.one_apply, smul_eq_mul] at this
+  simp only [mulVec, dotProduct, vertex, Pi.smul_apply, Pi.single_apply, smul_eq_mul]
+  rw [this]
+
+theorem bil_vertex (B : Matrix (Fin n) (Fin n) R) (p q : Fin n) :
+    bil B (vertex B p) (vertex B q) = B.det * B.adjugate q p := by
+  unfold bil
+  rw [B_mulVec_vertex, dotProduct_smul, dotProduct_single_one]
+  simp [vertex]
+
+theorem bil_symm (B : Matrix (Fin n) (Fin n) R) (hs : Bᵀ = B) (x y : Fin n → R) : bil B x y = bil B y x := by
+  unfold bil
+  rw [dotProduct_mulVec, ← mulVec_transpose, hs, dotProduct_comm]
+
+theorem bil_sub_left (B : Matrix (Fin n) (Fin n) R) (x y z : Fin n → R) :
+    bil B (x - y) z = bil B x z - bil B y z := by unfold bil; rw [sub_dotProduct]
+theorem bil_sub_right (B : Matrix (Fin n) (Fin n) R) (x y z : Fin n → R) :
+    bil B x (y - z) = bil B x y - bil B x z := by unfold bil; rw [mulVec_sub, dotProduct_sub]
+theorem bil_smul_left (B : Matrix (Fin n) (Fin n) R) (r : R) (x z : Fin n → R) :
+    bil B (r • x) z = r * bil B x z := by unfold bil; rw [smul_dotProduct, smul_eq_mul]
+theorem bil_smul_right (B : Matrix (Fin n) (Fin n) R) (r : R) (x z : Fin n → R) :
+    bil B x (r • z) = r * bil B x z := by unfold bil; rw [mulVec_smul, dotProduct_smul, smul_eq_mul]
+
+theorem bil_tangent (B : Matrix (Fin n) (Fin n) R) (hs : Bᵀ = B) (x y z : Fin n → R) :
+    bil B (tangent B x y) (tangent B x z)
+      = bil B x x * (bil B x x * bil B y z - bil B y x * bil B z x) := by
+  unfold tangent
+  simp only [bil_sub_left, bil_sub_right, bil_smul_left, bil_smul_right]
+  rw [bil_symm B hs x z]
+  ring
+
+theorem vertex_fixed (B : Matrix (Fin n) (Fin n) R) (i k : Fin n) (h : i ≠ k) :
+    geomRep B i *ᵥ vertex B k = vertex B k := by
+  unfold geomRep
+  rw [refl_mulVec]
+  have : ((2 : R) • B) i ⬝ᵥ vertex B k = 0 := by
+    have e : ((2 : R) • B) i ⬝ᵥ vertex B k = 2 * (B *ᵥ vertex B k) i := by
+      simp [mulVec, dotProduct, Finset.mul_sum, mul_assoc]
+    rw [e, B_mulVec_vertex]; simp [h]
+  rw [this]; simp
+
+theorem adj3 (a b c : R) :
+    (form3 a b c).adjugate =
+      !![1 - c * c, b * c - a, a * c - b; b * c - a, 1 - b * b, a * b - c; a * c - b, a * b - c, 1 - a * a] := by
+  ext i j
+  fin_cases i <;> fin_cases j <;> simp [form3, Matrix.adjugate_fin_three] <;> ring
+
+theorem det3 (a b c : R) :
+    (form3 a b c).det = 1 + 2 * a * b * c - a * a - b * b - c * c := by
+  rw [Matrix.det_fin_three]; simp [form3]; ring
+
+theorem adj_minor3 (a b c : R) :
+    ∀ (B : Matrix (Fin 3) (Fin 3) R), B = form3 a b c → ∀ i j k : Fin 3, i ≠ j → j ≠ k → i ≠ k →
+      B.adjugate k k * B.adjugate i j - B.adjugate k j * B.adjugate k i = -(B.det * B i j) ∧
+      B.adjugate k k * B.adjugate j j - B.adjugate k j * B.adjugate k j = B.det ∧
+      B.adjugate k k * B.adjugate i i - B.adjugate k i * B.adjugate k i = B.det ∧
+      B.adjugate k k = 1 - B i j ^ 2 := by
+  intro B hB i j k hij hjk hik
+  subst hB
+  simp only [adj3, det3]
+  fin_cases i <;> fin_cases j <;> fin_cases k <;> simp at hij hjk hik <;>
+  · refine ⟨?_, ?_, ?_, ?_⟩ <;> simp [form3] <;> ring
+
+/-- the fundamental triangle of a rank-3 cosine form -/
+theorem triangle3 (a b c : R) :
+    ∀ (B : Matrix (Fin 3) (Fin 3) R), B = form3 a b c → ∀ i j k : Fin 3, i ≠ j → j ≠ k → i ≠ k →
+      bil B (tangent B (vertex B k) (vertex B j)) (tangent B (vertex B k) (vertex B i))
+        = -B i j * bil B (tangent B (vertex B k) (vertex B j)) (tangent B (vertex B k) (vertex B j)) ∧
+      bil B (tangent B (vertex B k) (vertex B i)) (tangent B (vertex B k) (vertex B i))
+        = bil B (tangent B (vertex B k) (vertex B j)) (tangent B (vertex B k) (vertex B j)) ∧
+      bil B (tangent B (vertex B k) (vertex B j)) (tangent B (vertex B k) (vertex B j))
+        = B.det ^ 4 * (1 - B i j ^ 2) ∧
+      bil B (vertex B k) (vertex B k) = B.det * (1 - B i j ^ 2) := by
+  intro B hB i j k hij hjk hik
+  have hs : Bᵀ = B := by
+    subst hB; ext p q; fin_cases p <;> fin_cases q <;> simp [form3]
+  obtain ⟨m1, m2, m3, m4⟩ := adj_minor3 a b c B hB i j k hij hjk hik
+  simp only [bil_tangent B hs, bil_vertex]
+  refine ⟨?_, ?_, ?_, ?_⟩
+  · linear_combination (B.det ^ 3 * B.adjugate k k) * m1 + (B.det ^ 3 * B.adjugate k k * B i j) * m2
+  · linear_combination (B.det ^ 3 * B.adjugate k k) * m3 - (B.det ^ 3 * B.adjugate k k) * m2
+  · rw [← m4]
+    linear_combination (B.det ^ 3 * B.adjugate k k) * m2
+  · rw [m4]
+
+end triangle
+
+/-- for `θ = 2π/m`, `0 < k < m`: not both `cheb (k+1) = 0` and `cheb k = -1` -/
+theorem cheb_no_early_period (m k : ℕ) (hm : 3 ≤ m) (hk0 : 0 < k) (hkm : k < m)
+    (h1 : cheb (2 * Real.cos (2 * Real.pi / m)) (k + 1) = 0)
+    (h0 : cheb (2 * Real.cos (2 * Real.pi / m)) k = -1) : False := by
+  have hm0 : (0 : ℝ) < m := by exact_mod_cast (by omega : 0 < m)
+  have hm3 : (3 : ℝ) ≤ m := by exact_mod_cast hm
+  set θ := 2 * Real.pi / m with hθ
+  have hpos : 0 < θ := by positivity
+  have hlt : θ < Real.pi := by rw [hθ, div_lt_iff₀ hm0]; nlinarith [Real.pi_pos]
+  have hs : 0 < Real.sin θ := Real.sin_pos_of_pos_of_lt_pi hpos hlt
+  have hmθ : (m : ℝ) * θ = 2 * Real.pi := by rw [hθ]; field_simp
+  have a := cheb_sin θ (k + 1)
+  have b := cheb_sin θ k
+  rw [h1] at a
+  rw [h0] at b
+  have e1 : (((k + 1 : ℕ) : ℝ) - 1) * θ = (k : ℝ) * θ := by push_cast; ring
+  rw [e1, zero_mul] at a
+  -- sin(kθ) = 0 with 0 < kθ < 2π, so kθ = π
+  have hk0' : (0 : ℝ) < k := by exact_mod_cast hk0
+  have hkm' : (k : ℝ) < m := by exact_mod_cast hkm
+  have hkθ0 : 0 < (k : ℝ) * θ := by positivity
+  have hkθ2 : (k : ℝ) * θ < 2 * Real.pi := by rw [← hmθ]; exact mul_lt_mul_of_pos_right hkm' hpos
+  have hx : (k : ℝ) * θ - Real.pi = 0 := by
+    apply (Real.sin_eq_zero_iff_of_lt_of_lt (by linarith) (by linarith)).1
+    rw [Real.sin_sub_pi, ← a, neg_zero]
+  have e2 : ((k : ℝ) - 1) * θ = Real.pi - θ := by linarith
+  rw [e2, Real.sin_pi_sub] at b
+  linarith
+
+/-- **exact order** of a product of two reflections over ℝ: for `0 < k < m`, `(sᵢsⱼ)^k ≠ 1` -/
+theorem order_exact' {n : ℕ} (C : Matrix (Fin n) (Fin n) ℝ) (i j : Fin n) (hij : i ≠ j)
+    (hi : C i i = 2) (hj : C j j = 2) (m : ℕ) (hm : 2 ≤ m)
+    (hc : C i j * C j i = 4 * Real.cos (Real.pi / m) ^ 2) (k : ℕ) (hk0 : 0 < k) (hkm : k < m) :
+    (refl C i * refl C j) ^ k ≠ 1 := by
+  intro hP
+  set P := refl C i * refl C j with hPdef
+  have hej : P *ᵥ Pi.single j 1 = C i j • Pi.single i 1 - Pi.single j 1 := P_ej C i j hj
+  have hei : P *ᵥ Pi.single i 1 = (C i j * C j i - 1) • Pi.single i 1 - C j i • Pi.single j 1 :=
+    P_ei C i j hi
+  have sij : (Pi.single i (1 : ℝ) : Fin n → ℝ) j = 0 := by simp [hij.symm]
+  have sji : (Pi.single j (1 : ℝ) : Fin n → ℝ) i = 0 := by simp [hij]
+  rcases Nat.eq_or_lt_of_le hm with rfl | hm3
+  · -- m = 2, k = 1
+    have hk1 : k = 1 := by omega
+    subst hk1
+    rw [pow_one] at hP
+    have := congrFun (congrArg (fun M => M *ᵥ (Pi.single j (1 : ℝ))) hP) j
+    simp only [hej, one_mulVec, Pi.sub_apply, Pi.smul_apply, sij, smul_eq_mul, mul_zero,
+      Pi.single_eq_same] at this
+    linarith
+  · have ht : C i j * C j i - 2 = 2 * Real.cos (2 * Real.pi / m) := by
+      have : 2 * Real.pi / m = 2 * (Real.pi / m) := by ring
+      rw [hc, this, Real.cos_two_mul]; ring
+    set t := C i j * C j i - 2 with htdef
+    have hcore := braid_core' C i j hi hj
+    rw [← htdef, ← hPdef] at hcore
+    have hQ := pow_mul_Q P t hcore k
+    rw [hP, one_mul] at hQ
+    -- apply both sides to e_j
+    have hv := congrFun (congrArg (fun M => M *ᵥ (Pi.single j (1 : ℝ))) hQ)
+    have hQe : (P - 1) *ᵥ Pi.single j 1 = C i j • Pi.single i 1 - (2 : ℝ) • Pi.single j 1 := by
+      rw [sub_mulVec, one_mulVec, hej]; module
+    have hPQe : (P * (P - 1)) *ᵥ Pi.single j 1 =
+        (C i j * (t - 1)) • Pi.single i 1 + (-t) • Pi.single j 1 := by
+      rw [← mulVec_mulVec, hQe, mulVec_sub, mulVec_smul, mulVec_smul, hei, hej, htdef]; module
+    have hvj := hv j
+    have hvi := hv i
+    simp only [sub_mulVec, smul_mulVec, hQe, hPQe, Pi.sub_apply, Pi.add_apply, Pi.smul_apply, sij, sji,
+      smul_eq_mul, mul_zero, Pi.single_eq_same, mul_one, zero_sub, sub_zero, zero_add, add_zero] at hvj hvi
+    -- C i j ≠ 0
+    have hm0 : (0 : ℝ) < m := by exact_mod_cast (by omega : 0 < m)
+    have hcos : 0 < Real.cos (Real.pi / m) := by
+      apply Real.cos_pos_of_mem_Ioo
+      constructor
+      · have : 0 < Real.pi / m := by positivity
+        linarith [Real.pi_pos]
+      · rw [div_lt_div_iff_of_pos_left Real.pi_pos hm0 (by norm_num)]
+        exact_mod_cast (by omega : 2 < m)
+    have hCij : C i j ≠ 0 := by
+      intro h0; rw [h0, zero_mul] at hc; nlinarith
+    obtain ⟨p1, p2, p3⟩ := cheb_period m hm3
+    rw [← ht] at p3
+    have E2 : cheb t (k + 1) * (t - 1) = 1 + cheb t k := by
+      have : C i j * (cheb t (k + 1) * (t - 1) - 1 - cheb t k) = 0 := by linarith
+      rcases mul_eq_zero.1 this with h | h
+      · exact absurd h hCij
+      · linarith
+    have E1 : t * cheb t (k + 1) = 2 + 2 * cheb t k := by linarith
+    have hz : cheb t (k + 1) * (t - 2) = 0 := by linear_combination 2 * E2 - E1
+    have h1 : cheb t (k + 1) = 0 := by
+      rcases mul_eq_zero.1 hz with h | h
+      · exact h
+      · exact absurd (by linarith) p3
+    have h0 : cheb t k = -1 := by rw [h1] at E2; linarith
+    rw [ht] at h1 h0
+    exact cheb_no_early_period m k hm3 hk0 hkm h1 h0
 
 end GT.Cox
